@@ -22,6 +22,9 @@ ASSUMPTIONS = [
     "only when the consumer's setup resolves the pattern): implementation-only oracle, several PYTHONHASHSEEDs per project (the two tasks "
     "are unordered before the resolution); the dependency counts iff the file existed before the build; selections are judged over the "
     "statically known edges, and a consumer whose late producer is deselected is not judged",
+    "stream 'objects' (the same PTask objects handed to several `pytask.build(tasks=[...])` calls of ONE interpreter, with different "
+    "selections): implementation-only oracle, every build judged on its own — marks attached by an earlier build (deselected, previous "
+    "task skipped) must not decide a later one; -k over task names and -m over 'skip' / 'skipif' only (hand-built objects carry no user markers)",
     "stream 'generator' (tasks created during the build by a selected task generator): the static engine model has no generators; "
     "implementation-only oracle with the eligible set computed from the spec including the generated tasks; a generated task exists only "
     "if its generator ran, so it is judged only when it is reported or executed; -m expressions of this stream do not name 'skip'/'skipif'",
@@ -130,7 +133,7 @@ def closures_without_f1(spec, cfg):
     if not f1:
         return engine.user_skipped_closure(spec), engine.eligible(spec, cfg)
     edges = engine.spec_task_edges(spec) - f1
-    s0 = {t["id"] for t in spec["tasks"] if {"skip", "skipif_true", "skipif_true_e"} & set(t.get("marks", []))}
+    s0 = {t["id"] for t in spec["tasks"] if {"skip", "skipif_true", "skipif_true_e", "skipif_true_kw"} & set(t.get("marks", []))}
     usk = set(s0)
     for t in s0:
         usk |= engine.closure(edges, t, forward=True)
@@ -173,7 +176,7 @@ SHAPES = {
     # 0 -> 1, 2 is `after` 1, 3 independent
     "after": [(0, [100], [110], []), (1, [110], [111], []), (2, [], [112], [1]), (3, [100], [113], [])],
 }
-PLACEMENTS = [["skip"], ["skipif_true"], ["skipif_false"], ["skipif_false", "skipif_true"], ["skipif_true_e"], ["skipif_false", "skipif_true_e"]]
+PLACEMENTS = [["skip"], ["skipif_true"], ["skipif_false"], ["skipif_false", "skipif_true"], ["skipif_true_e"], ["skipif_false", "skipif_true_e"], ["skipif_true_kw"]]
 
 
 def small_scope(ctx):
@@ -252,7 +255,7 @@ def histories(ctx):
     hs += small_scope(ctx)
     for i in range(ctx.scale(120, 1300)):
         spec = engine.gen_spec(rng, nt=(2, 7), after_p=0.25, after_needs_prods=not (F1_KNOWN and i % 5 == 0), user_markers=True,
-                               marks=(("skip", 0.12), ("skipif_true", 0.08), ("skipif_true_e", 0.04), ("skipif_false", 0.15), ("persist", 0.08)))
+                               marks=(("skip", 0.12), ("skipif_true", 0.08), ("skipif_true_e", 0.03), ("skipif_true_kw", 0.04), ("skipif_false", 0.15), ("persist", 0.08)))
         engine.vary_decorators(rng, spec)
         steps = []
         if rng.random() < 0.4:
@@ -312,7 +315,7 @@ def memlink_histories(ctx):
     for i in range(ctx.scale(25, 400)):
         spec = engine.gen_spec(rng, nt=(3, 7), after_p=0.15, after_needs_prods=True, user_markers=True, dens=0.8, prodless_p=0.05,
                                styles=("default", "annotated", "kwargs"),
-                               marks=(("skip", 0.15), ("skipif_true", 0.08), ("skipif_true_e", 0.03), ("skipif_false", 0.1)))
+                               marks=(("skip", 0.15), ("skipif_true", 0.08), ("skipif_true_e", 0.03), ("skipif_true_kw", 0.04), ("skipif_false", 0.1)))
         prod_of = {p: t["id"] for t in spec["tasks"] for p in t["prods"]}
         changed = False
         for t in spec["tasks"]:
@@ -348,7 +351,7 @@ def latelink_histories(ctx):
     hs = []
     reps = 4 if not ctx.thorough else 8
     k = 0
-    for mk in (["skip"], ["skipif_true"], ["skipif_true_e"], None):
+    for mk in (["skip"], ["skipif_true"], ["skipif_true_kw"], None, ["skipif_true_e"]):
         for ids in ((0, 1, 2), (3, 1, 2), (0, 4, 2), (5, 6, 7)):
             k += 1
             if not ctx.thorough and ctx.budget == 1.0 and k % 2:
@@ -385,12 +388,69 @@ def latelink_histories(ctx):
         marked = copy.deepcopy(spec)
         prods = [t for t in marked["tasks"] if t["prods"]]
         for t in rng.sample(prods, rng.randint(1, min(2, len(prods)))):
-            t["marks"].append(rng.choice(["skip", "skipif_true"]))
+            t["marks"].append(rng.choice(["skip", "skipif_true", "skipif_true_kw"]))
         steps = [["build", {}], ["respec", marked]] + [["bump", m] for m in sorted({t["module"] for t in spec["tasks"]})] + \
                 [["build", {"force": True} if rng.random() < 0.3 else {}]]
         for _ in range(3):
             hs.append({"tag": "latelink", "spec": spec, "steps": steps})
     return hs
+
+
+def run_objects_stream(ctx, given=None):
+    """Labelled stream "objects": see ASSUMPTIONS. Uses the task-object renderer and the in-process worker of the C10 campaign."""
+    import shutil
+    from concurrent.futures import ThreadPoolExecutor
+    from impl import builder, dryrun
+    rng = ctx.rng
+    hs = list(given or [])
+    for i in range(0 if given else ctx.scale(10, 120)):
+        spec = engine.gen_spec(rng, nt=(3, 5), after_p=0.0, dens=0.8, prodless_p=0.0, nomods=(1, 1), styles=("default",),
+                               marks=(("skip", 0.1), ("skipif_true", 0.08), ("skipif_false", 0.1)))
+        for t in spec["tasks"]:
+            t["marks"] = [m for m in t["marks"] if m in dryrun.MARK_SRC]
+            t["objkind"] = rng.choice(["task", "nopath"])
+        names = [project.tname(t["id"]) for t in spec["tasks"]]
+        cfgs = []
+        for _ in range(rng.randint(3, 4)):
+            r = rng.random()
+            if r < 0.4:
+                cfgs.append({"k": " or ".join(rng.sample(names, rng.randint(1, 2)))})
+            elif r < 0.55:
+                cfgs.append({"m": rng.choice(["skip", "skipif", "not skip"])})
+            elif r < 0.7:
+                cfgs.append({"force": True})
+            else:
+                cfgs.append({})
+        if not any(c.get("k") for c in cfgs[:-1]):
+            cfgs.insert(0, {"k": rng.choice(names)})
+        hs.append({"tag": "objects", "spec": spec, "steps": [["build", c] for c in cfgs], "hashseed": rng.randrange(1, 1000)})
+
+    def one(h):
+        root = common.scratch_dir("c06o")
+        try:
+            spec = h["spec"]
+            clock = project.Clock()
+            (root / "pyproject.toml").write_text("[tool.pytask.ini_options]\n")
+            (root / "_verif_rt.py").write_text(project.RT)
+            (root / "data").mkdir(exist_ok=True)
+            project.write_file(root / "verif_objs.py", dryrun.render_objects_module(spec), clock)
+            for n, c in spec.get("inputs", {}).items():
+                project.write_file(project.node_path(root, int(n)), str(c), clock)
+            obs = dryrun.inproc_builds(root, [builder.cfg_to_kw(s[1]) for s in h["steps"]], h["hashseed"], objects=True)
+            return [{"step": s, "cfg": s[1], "obs": o, "spec": spec, "pre": {}, "post": {}} for s, o in zip(h["steps"], obs)]
+        finally:
+            shutil.rmtree(root, ignore_errors=True)
+
+    with ThreadPoolExecutor(max_workers=8) as ex:
+        allrecs = list(ex.map(one, hs))
+    for h, recs in zip(hs, allrecs):
+        outs = [set(engine.outcomes(r["obs"]).values()) for r in recs]
+        nt = any("SKIP" in o and len(o) >= 2 for o in outs) and len(recs) >= 3
+        ctx.case([h["spec"], h["steps"]], nt, None)
+        ctx.dist["stream=objects"] += 1
+        for kind, msg, finding in oracle(h, recs):
+            ctx.violation(f"{kind}: {msg} [objects stream, builds {[s[1] for s in h['steps']]} in one interpreter]",
+                          {"history": h, "layer": "objects-inprocess"}, finding=finding)
 
 
 def generator_histories(ctx):
@@ -487,10 +547,16 @@ def run(ctx):
     before = len(ctx.nontrivial)
     engine.run_campaign(ctx, generator_histories(ctx), oracle, nontrivial=nontrivial_gen, compare_model=False)
     ctx.extra["generator_stream_nontrivial"] = len(ctx.nontrivial) - before
+    before = len(ctx.nontrivial)
+    run_objects_stream(ctx)
+    ctx.extra["objects_stream_nontrivial"] = len(ctx.nontrivial) - before
 
 
 def replay(ctx, obj):
     h = obj["input"]["history"]
+    if h.get("tag") == "objects":
+        run_objects_stream(ctx, [h] * 2)
+        return (False, ctx.violations[0]["what"]) if ctx.violations else (True, "skip/selection semantics hold on the stored in-process history")
     engine.run_campaign(ctx, [h] * 4, oracle, sel_eval=engine.sel_eval, compare_model=h.get("tag") not in ("memlink", "generator", "latelink"))
     if ctx.violations:
         return False, ctx.violations[0]["what"]
